@@ -10,7 +10,7 @@ TEXT = {
         "technique": "property-based differential testing against a reference model (rapid), shrinking to a replay file",
     },
     "C02": {
-        "level_text": "Property-based testing with a derivation verifier: on every accepted generated case the values observed by recorder value types (every Set call, in order, per container) must be exactly the bindings of some derivation of the reference semantics, and containers not given on the command line must keep their declaration-time content.",
+        "level_text": "Property-based testing with a derivation verifier: on every accepted generated case the values observed by recorder value types (every Set call, in order, per container) must be exactly the bindings of some derivation of the reference semantics, and containers not given on the command line must keep their declaration-time content; 'given on the command line' is observed on the recorder itself, not through SetByUser.",
         "design_ref": "DESIGN.md sections 3.2 and 5 (C02)",
         "level_note": TRUST + " Which of several valid derivations the parser picks is deliberately not constrained.",
         "technique": "property-based testing with a reference-model derivation verifier (rapid)",
@@ -22,9 +22,9 @@ TEXT = {
         "technique": "metamorphic property-based testing (rapid) plus reference-model differential",
     },
     "C10": {
-        "level_text": "Metamorphic property-based testing: the same item sequence spelled twice with independently drawn documented spellings and foldings must give identical acceptance and identical bound values, on accepted and rejected lines, inside arbitrary generated specs; each run is also compared with the reference semantics.",
+        "level_text": "Metamorphic property-based testing: the same item sequence spelled twice with independently drawn documented spellings and foldings must give identical acceptance and identical bound values, on accepted and rejected lines, inside arbitrary generated specs (a disagreement of the common verdict with the reference semantics is C01's claim and only counted).",
         "design_ref": "DESIGN.md section 5 (C10)",
-        "level_note": TRUST + " Values satisfy the stated precondition (non-empty, not '-'/'='-prefixed); '-ab=v' is never generated.",
+        "level_note": TRUST + " Values satisfy the stated precondition (non-empty; a '-'-prefixed value is never written in the separate form, a '='-prefixed one never in the attached form); '-ab=v' is never generated.",
         "technique": "metamorphic property-based testing (rapid)",
     },
     "C11": {
@@ -36,7 +36,7 @@ TEXT = {
     "C12": {
         "level_text": "Metamorphic property-based testing over configurations: each generated (program, argv) is run with no environment value and with every subset of the options backed by a set, valid variable; acceptance must be monotone, option values identical (specs without --), and the verdict under each subset must equal the reference semantics (which includes: a required absent env-backed option is satisfied; repeated occurrences are not rejected).",
         "design_ref": "DESIGN.md section 5 (C12)",
-        "level_note": TRUST + " Positional bindings are not compared across subsets (an ambiguous spec may legitimately pick another derivation).",
+        "level_note": TRUST + " Positional bindings are not compared across subsets (an ambiguous spec may legitimately pick another derivation). Token shapes whose reading the reference semantics leaves open ('-ab=v', '-f-x') are checked with the metamorphic clauses only. F11 (value of o in '-<flags>o=v' read as 'v' or '=v') is a recorded known finding identified by its exact case class; F10 was repaired.",
         "technique": "metamorphic property-based testing over environment configurations (rapid) plus reference-model differential",
     },
     "C08": {
@@ -60,17 +60,17 @@ TEXT = {
     "C04": {
         "level_text": "Model-based property-based testing on generated command trees: the argument vector is split at alias tokens, each level is judged by the reference semantics on its own tokens; the recorded hook log must show exactly the addressed command's Action once (with the Before/After frame) and each level's recorder bindings must be a derivation of that level's own tokens, or else an error and an empty log.",
         "design_ref": "DESIGN.md section 5 (C04)",
-        "level_note": TRUST + " Cases decided only by the recorded greedy-group finding (F3) at some level are set aside.",
+        "level_note": TRUST + " Cases decided by the recorded greedy-group finding (F3) at some level are run and judged with exactly that verdict at that level.",
         "technique": "model-based property-based testing over generated command trees (rapid)",
     },
     "C07": {
-        "level_text": "Model-based property-based testing over (command tree, error policy, rejection kind): the model names the rejecting level; the check observes the hook log, the captured error stream, Run's return value, the exit stub and the recovered panic, and additionally requires the error stream to be identical across the three policies.",
+        "level_text": "Model-based property-based testing over (command tree, error policy, rejection kind): the model names the rejecting level; the check observes the hook log, the captured error stream, Run's return value, the exit stub and the recovered panic, and reads the error stream separately from the output stream (error text and usage are looked for in the error stream only).",
         "design_ref": "DESIGN.md section 5 (C07)",
         "level_note": TRUST + " Conversion failures are produced by recorder value types that fail on a reserved token (same code path as the built-in types, which C13 covers).",
         "technique": "model-based property-based testing over trees x policies (rapid), cross-policy differential",
     },
     "C14": {
-        "level_text": "Model-based property-based testing: a help token at every kind of position (any level, before/after invalid tokens, behind '--') and version requests, under the three policies; observes which command's usage and long description are printed, the hook log, the exit stub and Run's return.",
+        "level_text": "Model-based property-based testing: a help token at every kind of position (any level, before/after invalid tokens, behind '--') and version requests, under the three policies; observes which command's usage and long description are printed, the hook log, the exit stub and Run's return; on applications whose sub commands declare no parameters also as a second request on the same application object.",
         "design_ref": "DESIGN.md section 5 (C14)",
         "level_note": TRUST + " The shape the property itself excludes (help below an ancestor whose own arguments contain '--') is counted, not asserted.",
         "technique": "model-based property-based testing over trees x policies x help-token positions (rapid)",
@@ -88,13 +88,13 @@ TEXT = {
         "technique": "differential property-based testing against strconv (rapid); native go fuzz target in the thorough tier",
     },
     "C15": {
-        "level_text": "Model-based property-based testing: SetByUser of every container must be true exactly when the generated command line supplied a value for it, across all built-in types, options and arguments, with environment values and defaults present or absent.",
+        "level_text": "Model-based property-based testing: SetByUser of every container must be true exactly when the generated command line supplied a value for it, across all built-in types, options and arguments, with environment values and defaults present or absent; only the flags are asserted here (values are C06's and C13's).",
         "design_ref": "DESIGN.md section 5 (C15)",
         "level_note": TRUST,
         "technique": "model-based property-based testing (rapid)",
     },
     "C16": {
-        "level_text": "Differential property-based testing between two real applications built from the same generated declarations (Spec empty versus the explicit spec assembled from the statement): acceptance, bound values and the usage line must coincide for every generated argv, and the explicit variant is additionally compared with the reference semantics.",
+        "level_text": "Differential property-based testing between two real applications built from the same generated declarations (Spec empty versus the explicit spec assembled from the statement): acceptance, bound values and the usage line must coincide for every generated argv, with the command under test as root command or as a sub command.",
         "design_ref": "DESIGN.md section 5 (C16)",
         "level_note": TRUST,
         "technique": "differential property-based testing, implicit versus explicit spec (rapid)",
